@@ -10,7 +10,7 @@ def parseSRCToJson(refcode, word2, word3, word4, word5, word6, word7, word8, wor
     verif_fixture.CALLS.append(('src', NAME, refcode, words))
     beh = 'prog'
     if beh == 'prog':
-        beh = {'0': 'ok', '1': 'null', '2': 'empty', '3': 'raise', '4': 'importerror'}.get(word2[-1], 'ok')
+        beh = {'0': 'ok', '1': 'null', '2': 'empty', '3': 'raise', '4': 'importerror', '5': 'raise_empty'}.get(word2[-1], 'ok')
     if beh == 'ok':
         return json.dumps({'Fixture SRC Parser': NAME, 'Fixture Refcode': refcode, 'Fixture Words': words})
     if beh == 'null':
@@ -19,6 +19,8 @@ def parseSRCToJson(refcode, word2, word3, word4, word5, word6, word7, word8, wor
         return ''
     if beh == 'raise':
         raise ValueError('fixture SRC parser %s refuses' % NAME)
+    if beh == 'raise_empty':
+        raise ValueError
     if beh == 'importerror':
         import verif_fixture_missing_dependency   # noqa: F401
     raise RuntimeError('unknown behaviour')
